@@ -18,11 +18,12 @@ enum Op {
     LOAD, STORE, ASSIGN, MODIFY, MODIFY_RET,            // whole-object operations
     LOCK_SH, CONST_LOCK, TRY_SH, TRY_SH_FOR, TRY_SH_UNTIL, READ, READ_RET,   // shared side
     DETACH, ASYNC,                                      // deferred_guarded
+    CAST,                                               // operator T() (ordered_guarded: the only wrapper where it compiles besides atomic_guarded)
     NOP
 };
 static const char* const OPN[] = {"lock", "try_lock", "try_lock_for", "try_lock_until", "load", "store", "operator=", "modify", "modify(ret)",
                                   "lock_shared", "const lock()", "try_lock_shared", "try_lock_shared_for", "try_lock_shared_until", "read",
-                                  "read(ret)", "modify_detach", "modify_async"};
+                                  "read(ret)", "modify_detach", "modify_async", "operator T()"};
 inline bool is_shared_op(int op) { return op >= LOCK_SH && op <= READ_RET; }
 inline bool is_excl_handle_op(int op) { return op <= TRY_UNTIL; }
 
@@ -58,7 +59,7 @@ inline bool supported(int fam, bool timed, int op)
         case F_GUARDED_OPT: return op <= ASSIGN;
         case F_SHARED:
         case F_SHARED_OPT: return op <= TRY_UNTIL || (op >= LOCK_SH && op <= TRY_SH_UNTIL);
-        case F_ORDERED: return (op >= LOAD && op <= MODIFY_RET) || (op >= LOCK_SH && op <= READ_RET && op != CONST_LOCK);
+        case F_ORDERED: return (op >= LOAD && op <= MODIFY_RET) || (op >= LOCK_SH && op <= READ_RET && op != CONST_LOCK) || op == CAST;
         case F_DEFERRED: return op == LOAD || (op >= LOCK_SH && op <= TRY_SH_UNTIL && op != CONST_LOCK) || op == DETACH || op == ASYNC;
     }
     return false;
@@ -199,6 +200,15 @@ void do_op(W& w, const POp& p, int tid, RoundState& rs, std::vector<std::future<
                 return static_cast<int>(c.n);
             });
             (void)n;
+            res.success = true;
+        }
+    }
+    if constexpr (FAM == F_ORDERED) {
+        if (p.op == CAST) {
+            Cell c = static_cast<Cell>(static_cast<const W&>(w));
+            c.check("converted value");
+            res.seen = c.log();
+            res.have_seen = true;
             res.success = true;
         }
     }
